@@ -249,6 +249,43 @@ func registerIntrinsics(in *Interp) {
 		in.onceDepth--
 		return Value{}
 	})
+	// sync.Pool with sequential semantics: Put pushes, Get pops (or calls New). The pool's
+	// contents live outside the modelled heap (per path), so pooling - properly
+	// synchronised by the real implementation - is not reported as a write to shared
+	// state; what a pooled object carries from one use to the next is modelled.
+	R("(*sync.Pool).Put", func(in *Interp, a []Value, s *cinstr) Value {
+		if a[1].K == KNil {
+			return Value{}
+		}
+		k := ptrKey{a[0].R.(*Obj), a[0].C}
+		if in.pools == nil {
+			in.pools = map[ptrKey][]Value{}
+		}
+		in.pools[k] = append(in.pools[k], a[1])
+		return Value{}
+	})
+	R("(*sync.Pool).Get", func(in *Interp, a []Value, s *cinstr) Value {
+		k := ptrKey{a[0].R.(*Obj), a[0].C}
+		if st := in.pools[k]; len(st) > 0 {
+			v := st[len(st)-1]
+			in.pools[k] = st[:len(st)-1]
+			return v
+		}
+		sp := in.Prog.ImportedPackage("sync")
+		if sp == nil || sp.Type("Pool") == nil {
+			in.unsupported("sync.Pool type not loaded")
+		}
+		lay := in.lay.of(sp.Type("Pool").Type())
+		newFn := a[0].R.(*Obj).Cells[int(a[0].C)+lay.Fields[len(lay.Fields)-1]]
+		if newFn.K == KNil {
+			return Value{K: KNil}
+		}
+		cl, ok := newFn.R.(*Closure)
+		if !ok {
+			in.unsupported("sync.Pool.New is not a closure value")
+		}
+		return in.call(in.info(cl.Fn), nil, cl.Env, s)
+	})
 	ld := func(in *Interp, a []Value, s *cinstr) Value {
 		p := a[0]
 		if p.K != KPtr {
